@@ -3,7 +3,7 @@
 import json, os, glob
 V = "/verif"
 res = {}
-for line in open(os.path.join(V, "seeded", "RESULTS.tsv")):
+for line in open(os.path.join(V, "seeded", "RESULTS.tsv"), errors="replace"):
     f = line.rstrip("\n").split("\t")
     if len(f) >= 4:
         res[f[0]] = f
